@@ -1,4 +1,4 @@
-import Psa.Shipped
+import Psa.ShippedProofs
 namespace PSA
 
 def allowedAll (rs : List CheckOut) : Bool := rs.all (·.allowed)
